@@ -93,6 +93,8 @@ CLASSES = {
     # MajorSolution with its solution keyed by such value keys (slices of solve_minor_model only)
     "MajorSolutionK": {"kind": "obj", "qualname": "aldy.solutions.MajorSolution#keyed",
                        "fields": {"score": "float", "solution": "Dict[AlleleId, int]", "cn_solution": "CNSolution", "added": "List[Mutation]"}},
+    # the two attributes of a pysam VariantRecord the bookkeeping of _load_vcf could read
+    "VariantRecord": {"kind": "obj", "qualname": "pysam.VariantRecord", "fields": {"pos": "int", "ref": "str"}},
     "MinorSolution": {
         "kind": "obj", "qualname": "aldy.solutions.MinorSolution",
         "fields": {"score": "float", "solution": "List[SolvedAllele]", "major_solution": "MajorSolution", "profile": "Optional[Profile]",
